@@ -117,6 +117,15 @@ func tsync(c *Case) {
 			defer wg.Done()
 			runtime.LockOSThread()
 			l := newLog(state)
+			if state == "ownfilter" {
+				// this thread carries a filter of its own (loaded without thread-sync):
+				// a later thread-sync load from another thread must be refused
+				own := seccomp.Filter{NoNewPrivs: true, Policy: seccomp.Policy{DefaultAction: seccomp.ActionAllow,
+					Syscalls: []seccomp.SyscallGroup{{Names: []string{"getpgrp"}, Action: seccomp.ActionErrno}}}}
+				if err := seccomp.LoadFilter(own); err != nil {
+					l.State = "ownfilter-load-failed"
+				}
+			}
 			ready <- struct{}{}
 			switch state {
 			case "spin":
@@ -126,7 +135,7 @@ func tsync(c *Case) {
 				for !loaded.Load() && !stop.Load() {
 					probe(l)
 				}
-			case "sleep":
+			case "sleep", "ownfilter":
 				for !loaded.Load() && !stop.Load() {
 					ts := syscall.Timespec{Nsec: 2000000}
 					syscall.Syscall(syscall.SYS_NANOSLEEP, uintptr(unsafe.Pointer(&ts)), 0, 0)
@@ -187,6 +196,9 @@ func tsync(c *Case) {
 	spinSink.Store(sink)
 	before := snapshot()
 	f := buildFilter(c)
+	instMu.Lock()
+	installs = nil // only the loader's call is reported (threads with a filter of their own loaded earlier)
+	instMu.Unlock()
 	loading.Store(true)
 	err := seccomp.LoadFilter(f)
 	if err == nil {
